@@ -185,6 +185,10 @@ func (e *esdtNFTTransfer) processNFTTransferOnSenderShard(
 	if err != nil {
 		return nil, err
 	}
+	err = checkTokenDataMatchesNonce(esdtData, nonce)
+	if err != nil {
+		return nil, err
+	}
 
 	quantityToTransfer := big.NewInt(0).SetBytes(vmInput.Arguments[2])
 	if esdtData.Value.Cmp(quantityToTransfer) < 0 {
@@ -344,6 +348,22 @@ func (e *esdtNFTTransfer) addNFTToDestination(
 	_, err = saveESDTNFTToken(userAccount, esdtTokenKey, esdtDataToTransfer, e.marshalizer, e.pauseHandler, isReturnWithError)
 	if err != nil {
 		return err
+	}
+
+	return nil
+}
+
+// checkTokenDataMatchesNonce verifies that the entry read from the sender's storage is the entry of the
+// requested nonce. The storage key is tokenID + nonce bytes, so another (tokenID, nonce) pair can spell the same key
+func checkTokenDataMatchesNonce(esdtData *esdt.ESDigitalToken, nonce uint64) error {
+	if nonce == 0 {
+		if esdtData.TokenMetaData != nil {
+			return ErrNFTTokenDoesNotExist
+		}
+		return nil
+	}
+	if esdtData.TokenMetaData == nil || esdtData.TokenMetaData.Nonce != nonce {
+		return ErrNFTTokenDoesNotExist
 	}
 
 	return nil
